@@ -10,16 +10,35 @@
 #include <sys/mman.h>
 int verif_exc, verif_exc_kind;
 int STOP_IS_FAILURE, STOPPED;
+uint64_t ir_tid;                                   /* thread-local model: only meaningful in the model-only C14 schedule harness */
+void ir_thread_exit(uint64_t t) { (void)t; }
+#ifdef IR_HOOK_MMAP
+/* the OS hooks of the harness stand in for the real calls in the native build too (linked with -Wl,--wrap=...) */
+extern uint64_t verif_mmap(uint64_t len); extern uint32_t verif_munmap(uint64_t p, uint64_t len);
+extern uint32_t verif_mprotect(uint64_t p, uint64_t len, uint32_t prot); extern uint64_t verif_page_size(void);
+void* __wrap_mmap(void* a, size_t len, int prot, int flags, int fd, long off) { (void)a; (void)prot; (void)flags; (void)fd; (void)off; return (void*)(uintptr_t)verif_mmap(len); }
+int __wrap_munmap(void* p, size_t len) { return (int)verif_munmap((uint64_t)(uintptr_t)p, len); }
+int __wrap_mprotect(void* p, size_t len, int prot) { return (int)verif_mprotect((uint64_t)(uintptr_t)p, len, (uint32_t)prot); }
+int __wrap_madvise(void* p, size_t len, int adv) { (void)p; (void)len; (void)adv; return 0; }
+long __wrap_sysconf(int name) { (void)name; return (long)verif_page_size(); }
 #endif
-static uint64_t vals[65536]; static int nvals, pos;
+#ifdef IR_HOOK_MALLOC
+extern uint64_t verif_os_alloc(uint64_t size, uint64_t alignment); extern void verif_os_free(uint64_t p, uint64_t size, uint64_t alignment);
+void* __wrap_malloc(size_t n) { return (void*)(uintptr_t)verif_os_alloc(n, 16); }
+void __wrap_free(void* p) { verif_os_free((uint64_t)(uintptr_t)p, 0, 0); }
+#endif
+#endif
+static uint64_t vals[65536]; static char kinds[65536][12]; static int nvals, pos;
 static unsigned char heap_img[1 << 16]; static int heap_len;
 static int violations;
 void harness(void);
 
 uint64_t replay_next(const char* kind)
 {
-    (void)kind;
-    if (pos >= nvals) { printf("REPLAY-EXHAUSTED after %d values\n", pos); fflush(stdout); exit(78); }
+    /* values of nondet calls whose result was never used do not appear in the solver's trace: a recorded value is
+       consumed only by a call of the same kind, an unmatched call gets 0 (its value cannot matter) */
+    if (pos >= nvals) return 0;
+    if (kinds[pos][0] && strcmp(kinds[pos], kind) != 0) return 0;
     return vals[pos++];
 }
 void replay_assert(int c, const char* msg)
@@ -55,7 +74,11 @@ int main(int argc, char** argv)
     if (!f) { perror("replay file"); return 2; }
     char line[1 << 18];
     while (fgets(line, sizeof line, f)) {
-        if (line[0] == 'N') { vals[nvals++] = strtoull(line + 2, 0, 10); }
+        if (line[0] == 'N') {
+            char k[32] = ""; unsigned long long v = 0;
+            if (sscanf(line + 2, "%31s %llu", k, &v) == 2) { strncpy(kinds[nvals], k, 11); vals[nvals++] = v; }
+            else { kinds[nvals][0] = 0; vals[nvals++] = strtoull(line + 2, 0, 10); }
+        }
         else if (line[0] == 'H') {
             char* p = line + 2;
             while (*p && *p != '\n') { unsigned v; sscanf(p, "%2x", &v); heap_img[heap_len++] = (unsigned char)v; p += 2; }
@@ -63,6 +86,10 @@ int main(int argc, char** argv)
     }
     fclose(f);
 #ifdef VERIF_NATIVE
+#ifdef IR_HOOK_MMAP
+    extern void* __real_mmap(void*, size_t, int, int, int, long);
+#define mmap __real_mmap
+#endif
     void* m = mmap((void*)(uintptr_t)HEAP_BASE, (HEAP_SIZE + 4095) & ~4095ul, PROT_READ | PROT_WRITE,
                    MAP_PRIVATE | MAP_ANONYMOUS | MAP_FIXED_NOREPLACE, -1, 0);
     if (m != (void*)(uintptr_t)HEAP_BASE) { perror("mmap HEAP_BASE"); return 2; }
